@@ -277,6 +277,32 @@ impl Prop for C07 {
             ));
         }
         f.push(Family::new(
+            "exotic-separators",
+            Mode::Full,
+            "separator pairs beyond '.' and ',': thousands separator plain space, NBSP (U+00A0), narrow NBSP (U+202F), thin space (U+2009), apostrophe, underscore; decimal separator ',', '.', middle dot, ';' - for numbers, percentages, money (usd, jpy) and unit quantities x values [1234567.891, -2469, 999.995, 0.5, 1000]: grouped and separated with exactly the configured strings",
+            move |ch| {
+                let (dec, thou) = *ch.pick(&[(",", " "), (",", "\u{a0}"), (",", "\u{202f}"), (",", "\u{2009}"), (".", "'"), (".", "_"), ("\u{b7}", " "), (";", ".")]);
+                let x = *ch.pick(&[1234567.891, -2469.0, 999.995, 0.5, 1000.0]);
+                let kind = match ch.choose(5) {
+                    0 => Kind::Number,
+                    1 => Kind::Percent,
+                    2 => Kind::Money("usd".into()),
+                    3 => Kind::Money("jpy".into()),
+                    _ => Kind::Unit("km".into(), "".into(), " Kilometer".into()),
+                };
+                let digits = match &kind {
+                    Kind::Money(c) => spec().currencies[c].digits,
+                    _ => 2,
+                };
+                let remove = matches!(kind, Kind::Unit(..));
+                // money is injected through a typed literal, and the literal reader admits only '.' and ','
+                if matches!(kind, Kind::Money(_)) && dec != "," && dec != "." {
+                    return None;
+                }
+                Some(Case { kind, x, digits, remove_zero_fract: remove, rounding: true, dec: dec.into(), thou: thou.into() })
+            },
+        ));
+        f.push(Family::new(
             "separator-setter-orders",
             Mode::Full,
             "every sequence of 1..=3 single setter calls over set_decimal_seperator in [',', '.', ';'] and set_thousand_separator in ['.', ',', '\''] on a fresh calculator, then [NUMBER:1234567.891] and [NUMBER:-0.5]: printed with the separators last set (whatever values they passed through), unless the two end up equal",
